@@ -72,6 +72,35 @@ fn first_difference(a: &Projection, b: &Projection) -> Option<(&'static str, Str
   None
 }
 
+const NULL_OUTPOINT: &str = "0000000000000000000000000000000000000000000000000000000000000000:4294967295:";
+
+/// True when the two projections differ *only* in the offsets of inscriptions
+/// that both place in the lost-sats pseudo-output (same sequence numbers, same
+/// null outpoint): the documented consequence of counting lost sats from the
+/// first inscription height instead of from genesis when the sat index is off.
+fn differ_only_in_lost_offsets(a: &Projection, b: &Projection) -> bool {
+  let mut any = false;
+  for (table, rows) in a {
+    let other = b.get(table).cloned().unwrap_or_default();
+    if *rows == other {
+      continue;
+    }
+    if *table != "inscription locations" || rows.len() != other.len() {
+      return false;
+    }
+    for (x, y) in rows.iter().zip(other.iter()) {
+      if x == y {
+        continue;
+      }
+      match (x.split_once(NULL_OUTPOINT), y.split_once(NULL_OUTPOINT)) {
+        (Some((px, _)), Some((py, _))) if px == py => any = true,
+        _ => return false,
+      }
+    }
+  }
+  any && b.keys().all(|k| a.contains_key(k))
+}
+
 pub fn run(ctx: &Ctx, rep: &mut Report) {
   let _hooks = Hooks::install();
   let scratch = if ctx.scratch.is_empty() { "/tmp/verif-scratch".to_string() } else { ctx.scratch.clone() };
@@ -92,6 +121,7 @@ pub fn run(ctx: &Ctx, rep: &mut Report) {
     let _ = std::fs::remove_dir_all(&dir);
     let chunking = rng.below(3);
     let mut reference: Option<(String, Projection)> = None;
+    let mut sats_of_reference = false;
     for bits in 0..8u32 {
       let mut cfg = IndexCfg::all();
       cfg.sats = bits & 1 != 0;
@@ -130,11 +160,17 @@ pub fn run(ctx: &Ctx, rep: &mut Report) {
           rep.distinct(&(bits, first_height.is_some(), chunking));
           rep.seen("configurations", format!("{}{}", cfg.label(), if full { "" } else { "/node-fetch" }));
           match &reference {
-            None => reference = Some((cfg.label(), proj)),
+            None => {
+              sats_of_reference = cfg.sats;
+              reference = Some((cfg.label(), proj))
+            }
             Some((name, want)) => match first_difference(want, &proj) {
               None => rep.count("projections_equal"),
               Some((table, detail)) => {
-                let lost = table == "inscription locations" && detail.contains("0000000000000000000000000000000000000000000000000000000000000000:4294967295");
+                let lost = differ_only_in_lost_offsets(want, &proj) && sats_of_reference != cfg.sats;
+                if lost && first_height.is_some() {
+                  rep.count("configurations_differing_only_in_lost_sat_offsets");
+                }
                 let sig = if lost && first_height.is_some() { "C15/lost-offset-differs-when-sats-were-lost-before-first-inscription-height".to_string() } else { format!("C15/results-differ/{}", table.split(' ').next().unwrap_or("")) };
                 rep.violation(&sig, format!("{} vs {} (first inscription/rune height {:?}): {table}: {detail}", name, cfg.label(), first_height), rp);
               }
